@@ -34,6 +34,8 @@ pub struct ActorDomain {
     inner: Inner,
     group: Option<Group>,
     dir: std::path::PathBuf,
+    /// the keyspace the following requests address (`ks <name>` switches; a node holds many)
+    cur: String,
 }
 
 fn new_group(inner: &Inner) -> Group {
@@ -70,7 +72,7 @@ impl ActorDomain {
             _ => Inner::Mem(Arc::new(MemStore::default())),
         };
         let group = Some(new_group(&inner));
-        Self { inner, group, dir }
+        Self { inner, group, dir, cur: KS.to_string() }
     }
 }
 
@@ -136,13 +138,14 @@ async fn run_op<S: Storage>(
     group: &KeyspaceGroup<S>,
     next: &Arc<parking_lot::Mutex<Directive>>,
     t: &[&str],
+    ksname: &str,
 ) -> String {
     let d = directive(t);
     let is_hang = d == Directive::HangAfterWrite;
     match t[0] {
         "set" => {
             *next.lock() = d;
-            let ks = group.get_or_create_keyspace(KS).await;
+            let ks = group.get_or_create_keyspace(ksname).await;
             let doc = Document::new(p_u64(t[2]), HLCTimestamp::from_u64(p_u64(t[3])), gen_data(t[4]));
             let r = with_timeout(ks.send(Set { source: p_u64(t[1]) as usize, doc, ctx: None, _marker: PhantomData::<S> })).await;
             *next.lock() = Directive::None;
@@ -154,7 +157,7 @@ async fn run_op<S: Storage>(
         },
         "del" => {
             *next.lock() = d;
-            let ks = group.get_or_create_keyspace(KS).await;
+            let ks = group.get_or_create_keyspace(ksname).await;
             let doc = DocumentMetadata::new(p_u64(t[2]), HLCTimestamp::from_u64(p_u64(t[3])));
             let r = with_timeout(ks.send(Del { source: p_u64(t[1]) as usize, doc, _marker: PhantomData::<S> })).await;
             *next.lock() = Directive::None;
@@ -166,7 +169,7 @@ async fn run_op<S: Storage>(
         },
         "mset" => {
             *next.lock() = d;
-            let ks = group.get_or_create_keyspace(KS).await;
+            let ks = group.get_or_create_keyspace(ksname).await;
             let r = with_timeout(ks.send(MultiSet { source: p_u64(t[1]) as usize, docs: parse_docs(t[2]), ctx: None, _marker: PhantomData::<S> })).await;
             *next.lock() = Directive::None;
             match r {
@@ -181,7 +184,7 @@ async fn run_op<S: Storage>(
         },
         "mdel" => {
             *next.lock() = d;
-            let ks = group.get_or_create_keyspace(KS).await;
+            let ks = group.get_or_create_keyspace(ksname).await;
             let r = with_timeout(ks.send(MultiDel { source: p_u64(t[1]) as usize, docs: parse_meta(t[2]), _marker: PhantomData::<S> })).await;
             *next.lock() = Directive::None;
             match r {
@@ -196,7 +199,7 @@ async fn run_op<S: Storage>(
         },
         "purge" => {
             *next.lock() = d;
-            let ks = group.get_or_create_keyspace(KS).await;
+            let ks = group.get_or_create_keyspace(ksname).await;
             let r = with_timeout(ks.send(PurgeDeletes(PhantomData::<S>))).await;
             *next.lock() = Directive::None;
             match r {
@@ -206,7 +209,7 @@ async fn run_op<S: Storage>(
             }
         },
         "state" => {
-            let ks = group.get_or_create_keyspace(KS).await;
+            let ks = group.get_or_create_keyspace(ksname).await;
             let set = match with_timeout(ks.send(Serialize)).await {
                 Some(Ok(bytes)) => {
                     let set = decode_set(&bytes);
@@ -215,12 +218,12 @@ async fn run_op<S: Storage>(
                 },
                 _ => "unavailable".to_string(),
             };
-            let mut meta: Vec<(u64, u64, bool)> = group.storage().iter_metadata(KS).await.expect("meta").map(|(k, ts, tb)| (k, ts.as_u64(), tb)).collect();
+            let mut meta: Vec<(u64, u64, bool)> = group.storage().iter_metadata(ksname).await.expect("meta").map(|(k, ts, tb)| (k, ts.as_u64(), tb)).collect();
             meta.sort();
             let ms = if meta.is_empty() { "-".to_string() } else { meta.iter().map(|(k, ts, tb)| format!("{}:{}:{}", k, ts, if *tb { "t" } else { "f" })).collect::<Vec<_>>().join(",") };
             format!("set {} | store {}", set, ms)
         },
-        "get" => match group.storage().get(KS, p_u64(t[1])).await {
+        "get" => match group.storage().get(ksname, p_u64(t[1])).await {
             Ok(Some(d)) => format!("doc {}:{}:{}", d.id(), d.last_updated().as_u64(), show_data(d.data())),
             Ok(None) => "none".into(),
             Err(_) => "err".into(),
@@ -235,6 +238,10 @@ async fn run_op<S: Storage>(
 
 impl Domain for ActorDomain {
     fn op(&mut self, t: &[&str]) -> String {
+        if t[0] == "ks" {
+            self.cur = t[1].to_string();
+            return "ok".into();
+        }
         if t[0] == "restart" {
             // the node stops (its group and actors are abandoned) and starts again on the same storage
             self.group = None;
@@ -247,8 +254,8 @@ impl Domain for ActorDomain {
             return if r.is_ok() { "ok".into() } else { "err".into() };
         }
         match self.group.as_ref().expect("group") {
-            Group::Mem(g, n) => runtime().block_on(run_op(g, n, t)),
-            Group::Sqlite(g, n) => runtime().block_on(run_op(g, n, t)),
+            Group::Mem(g, n) => runtime().block_on(run_op(g, n, t, &self.cur)),
+            Group::Sqlite(g, n) => runtime().block_on(run_op(g, n, t, &self.cur)),
         }
     }
 }
